@@ -3,6 +3,8 @@
 mod c07;
 mod c13;
 mod c15codec;
+mod c15stream;
+mod c17;
 mod c19;
 mod c20;
 mod cli;
@@ -129,6 +131,22 @@ fn main() {
                 c15codec::generate(&mut out, seed, scripts, len);
             } else {
                 c15codec::replay(&mut out, &read_scripts(&replay));
+            }
+        }
+        "c15frame" | "c15e2e" => {
+            if replay.is_empty() {
+                c15stream::generate(&mut out, &family, seed, scripts, len);
+            } else {
+                c15stream::replay(&mut out, &family, &read_scripts(&replay));
+            }
+        }
+        "c17camel" => {
+            if replay.is_empty() {
+                c17::generate(&mut out, seed, scripts, len);
+            } else {
+                for (i, (_h, ops)) in read_scripts(&replay).iter().enumerate() {
+                    c17::replay_script(&mut out, i as u64, ops);
+                }
             }
         }
         "c19" => {
